@@ -74,6 +74,7 @@ def member_trace(tid, member_case, rec_member, *, collecting, records):
     cfg = dict(member_case["cfg"])
     cfg["collecting"] = collecting
     cfg["nexts"] = 0
+    cfg.setdefault("noDefaultPrint", False)
     final = {
         "raised": "",
         "returned": ret_idx,
@@ -83,7 +84,7 @@ def member_trace(tid, member_case, rec_member, *, collecting, records):
         "match_count": p.match_count,
         "scan_count": p.scan_count,
         "printed": [txt(s) for s in cap.lines],
-        "checkLines": False, "lines": [], "headers": [],
+        "checkLines": False, "lines": [], "headers": [], "checkStdout": False, "stdout": [],
     }
     return {
         "tid": tid,
